@@ -63,6 +63,8 @@ var stormFamilies = []struct{ builtins, args []string }{
 	{[]string{"test", "[", "[[", "test !", "[ !", "test -v", "test -n", "test -z", "[ -e", "test -f", "test (", "! test"}, []string{"a", "=", "==", "!=", "-eq", "-lt", "-a", "-o", "!", "(", ")", "]", "]]", "", "1", "x", "-n", "-z", "-v", "-e", "<", ">", "=~", "-nt", "-ef", "a b", "-t", "&&", "||"}},
 	{[]string{"printf", "printf -v v", "echo", "echo -e", "echo -n", "echo -en", "printf --", "printf %s", "printf '%d\\n'", "printf %b", "printf %c", "printf %x", "printf '%5s'", "printf '%-5d'", "printf %q"}, []string{"%", "%%", "%s", "%d", "%5", "%-", "%*d", "%.3s", "%z", "\\", "\\x", "\\xZ", "\\u12", "\\U0010FFFF", "\\c", "\\0777", "\\1", "-1", "9223372036854775808", "0x", "08", "'a", "\"a", "", "abc", "1e3", "-n", "--"}},
 	{[]string{"set", "set -o", "set +o", "shopt", "shopt -s", "shopt -u", "shopt -p", "shopt -q", "set -e;", "set -u;", "set -x;", "set +x;", "set --", "set -", "echo $-;", "set -o |"}, []string{"errexit", "nounset", "pipefail", "noglob", "allexport", "noexec", "xtrace", "posix", "bogus", "globstar", "extglob", "nullglob", "dotglob", "nocaseglob", "expand_aliases", "inherit_errexit", "lastpipe", "-e", "+e", "-o", "+o", "-euo", "pipefail -x", "--", "-", "a b"}},
+	// hostile patterns held in variables, used wherever interp matches one
+	{[]string{"shopt -s extglob;", "shopt -s nullglob;", "shopt -s globstar nocaseglob dotglob;", "[[ x ==", "[[ abc !=", "case x in", "p=", "echo ${v#", "echo ${v%%", "echo ${v//", "echo ${v^^", "echo", "for f in", "v=abc;", "[[ $v =~"}, []string{"$p ]]", "$p) echo m;; esac", "$p}", "$p/r}", "$p; do :; done", "'*(a'", "'+('", "'?(a|@(b)'", "'[a-\\]]'", "'[--b]'", "'[[:foo:]]'", "'[[.a.]]'", "'!(a)*'", "'**('", "'[!'", "'\\'", "'@(a|'", "'[z-a]'", "'*(*(*(a)))'", "'[[:alpha:'", "$p", "\"$p\"", "*$p*", "$p/$p", "'(?i)('", "'[^/-a]'"}},
 	{[]string{"read", "read -r", "read -a arr", "read -n", "read -d", "read -p", "read -s", "read -t", "read -u", "read -N", "mapfile", "readarray -t", "IFS=: read", "IFS= read", "read x y z", "read -rn1", "REPLY=;"}, []string{"x", "x y", "-1", "0", "1", "3", "999999999", "''", "a", "-", "x[1]", "x[", "1x", "", "-r", "-e", "-i", "txt", "$'\\n'", "0.1", "9", "-t0"}},
 }
 
